@@ -15,6 +15,7 @@ import subprocess
 from .monitors import Out
 from . import dotparse
 from .synccases import N, S, P, CASES, finish, random_digraph
+from asynciojobs import Scheduler as _Sched
 
 ALPHABET = ['a', 'b', 'Z', '0', '"', '""', '\n', ' ', '{', '}', '[', ']', ';', '->', '--', 'é', '√', '<', '>', '=',
             ',', '#', '//', '/*', '*/', '%', '&', '|', "'", 'label', '\t', '日本', ':', '.', 'digraph', 'subgraph',
@@ -75,7 +76,7 @@ def build_tree(rng, alphabet, p_empty=0.15, maxdepth=3):
 def subtree_atoms(s):
     out = []
     for j in s.jobs:
-        if isinstance(j, S):
+        if isinstance(j, _Sched):
             out += subtree_atoms(j)
         else:
             out.append(j)
@@ -206,10 +207,10 @@ def check_dot(out, top, info, text):
                       % (missing, surplus))
     kinds = set()
     for r, j in want:
-        kinds.add(('S' if isinstance(r, S) else 'a') + '->' + ('S' if isinstance(j, S) else 'a'))
+        kinds.add(('S' if isinstance(r, _Sched) else 'a') + '->' + ('S' if isinstance(j, _Sched) else 'a'))
     for k in kinds:
         out.count('outputs with %s requirement edges' % k)
-    if 'compound' not in g.plain and any(isinstance(r, S) or isinstance(j, S) for r, j in want):
+    if 'compound' not in g.plain and any(isinstance(r, _Sched) or isinstance(j, _Sched) for r, j in want):
         out.violation('compound', "cluster edges are used but compound=true is missing")
 
 
@@ -226,7 +227,7 @@ def _check_style(out, attrs, job, info, is_sched):
     got = attrs.get('label')
     if got != want_label:
         out.violation('label', "label of %s is %r after unquoting, expected %r" % (job.name, got, want_label))
-    if any(c in info['label'][job] for c in '"\n{}[];#<>'):
+    if any(c in str(info['label'][job]) for c in '"\n{}[];#<>'):
         out.count('labels with quotes / newlines / DOT punctuation compared')
     style = [s for s in attrs.get('style', '').split(',') if s]
     if ('dashed' in style) != bool(job.forever):
